@@ -64,6 +64,7 @@ for b in blocks:
         continue        # poll_* below
     t = tr(b)
     t = t.replace('props ', 'props C12 ', 1)
+    t = t.replace('  ensures [', '  ensures [C12+')
     # the async commit closes through the assumed AsyncWriter::close: same lemma, other view
     out.append(t)
 
